@@ -29,7 +29,7 @@ namespace vh
 
   static std::string buildCase(Tok& t)
   {
-    bool hasSys = t.nat();
+    std::size_t hasSys = t.nat();  // 0: never set, 1: set, 2: set to another system first (same builder)
     std::size_t hasRx = t.nat();  // 0: never set, 1: set, 2: set to a valid list and then to an empty one (same builder)
     bool ignoreUnused = t.nat(), reorder = t.nat();
     std::size_t ng = t.nat();
@@ -71,6 +71,21 @@ namespace vh
     }
     using B = micm::CpuSolverBuilder<micm::RosenbrockSolverParameters>;
     B b(micm::RosenbrockSolverParameters::ThreeStageRosenbrockParameters());
+    if (hasSys == 2)
+    {
+      // the builder held ANOTHER system before (same number of gas species, other names, every species with its own
+      // tolerance, one extra phase): SetSystem then assigns the new system over it
+      std::vector<micm::Species> other;
+      for (std::size_t i = 0; i < gas.size(); ++i)
+      {
+        micm::Species s("zz" + std::to_string(i));
+        s.SetProperty<double>("absolute tolerance", 0.5 + i);
+        other.push_back(s);
+      }
+      std::unordered_map<std::string, micm::Phase> otherPhases;
+      otherPhases["solid"] = micm::Phase{ std::vector<micm::Species>{ micm::Species("q") } };
+      b.SetSystem(micm::System(micm::SystemParameters{ .gas_phase_ = micm::Phase{ other }, .phases_ = otherPhases }));
+    }
     if (hasSys)
       b.SetSystem(micm::System(micm::SystemParameters{ .gas_phase_ = micm::Phase{ gas }, .phases_ = phases }));
     if (hasRx)
